@@ -167,6 +167,73 @@ theorem lifetime_never_shortened (now : Nat) (m : Map) (msg : S2D) (k : Key) (v 
   | clear => exact absurd hd hnc
   | unknownOp => exact ⟨v, hk, Nat.le_refl _⟩
 
+/-- an event that cannot end the forwarding of a session that is due to live until `deadline`: a message
+that is not dispatched as a clear (whatever its content and clock value), or a sweep of stale sessions
+that runs before `deadline` -/
+def harmlessUntil (deadline : Nat) : Evt → Prop
+  | .msg _ m => dispatch m ≠ .clear
+  | .sweep now => now < deadline
+
+/-- **The packet path forwards the registrant's flows for as long as the station accepts them.**  After
+the announcement is handled at `t0` — whatever the map held — and after any further sequence of station
+messages that are not a clear and of sweeps (`drop_stale_sessions`) running at instants at which the
+station's record is still younger than its own threshold, `is_tracked_session` answers *yes* for the
+flow the client will send: to the registration's phantom and port, with the transport's protocol, from
+the registrant when the phantom is IPv4 (from any source when it is IPv6: the tag leaves the client
+out).  This ties the tag of a session (`SessionDetails::tag`) to the tag of a flow
+(`FlowNoSrcPort::tag`) and the sweep's comparison and clock unit to the announced lifetime. -/
+theorem tracked_while_accepted (r : Reg) (h : Announceable r) (st : RegState) (t0 : Nat) (m : Map)
+    (es : List Evt) (hes : ∀ e ∈ es, harmlessUntil (t0 + stationLifetime st) e) :
+    ∃ ph cl, ipOf r.phantom = some ph ∧ ipOf r.registrant = some cl ∧
+      ∀ src, (ph.isV4 = true → src = cl) →
+        isTracked (run (handle t0 m (announce r st)) es)
+          { src := src, dst := ph, dstPort := r.port, proto := nextHeader r.proto } = true := by
+  obtain ⟨ph, cl, hph, hcl, hd⟩ := timeouts_match r h st
+  refine ⟨ph, cl, hph, hcl, ?_⟩
+  intro src hsrc
+  let s : Session := { client := cl, phantom := ph, dstPort := r.port, srcPort := 0, proto := nextHeader r.proto,
+                       timeout := stationLifetime st }
+  have htag : flowTag { src := src, dst := ph, dstPort := r.port, proto := nextHeader r.proto } = tagOf s :=
+    flowTag_eq_tagOf s _ rfl rfl rfl hsrc
+  unfold isTracked
+  rw [htag]
+  -- invariant: the session's key is present with an expiry of at least the deadline
+  suffices hinv : ∀ (es : List Evt) (m' : Map), (∀ e ∈ es, harmlessUntil (t0 + stationLifetime st) e) →
+      (∃ v, Map.get? m' (.tag (tagOf s)) = some v ∧ t0 + stationLifetime st ≤ v) →
+      ∃ v, Map.get? (run m' es) (.tag (tagOf s)) = some v ∧ t0 + stationLifetime st ≤ v by
+    obtain ⟨v, hv, hle⟩ := get?_addOrUpdate_self t0 m s
+    have h0 : ∃ v, Map.get? (handle t0 m (announce r st)) (.tag (tagOf s)) = some v ∧ t0 + stationLifetime st ≤ v := by
+      refine ⟨v, ?_, hle⟩
+      unfold handle; rw [hd]; exact hv
+    obtain ⟨v', hv', _⟩ := hinv es _ hes h0
+    rw [hv']; rfl
+  intro es
+  induction es with
+  | nil => intro m' _ h0; exact h0
+  | cons e es ih =>
+    intro m' hall h0
+    have he := hall e (List.mem_cons_self ..)
+    have hrest : ∀ e' ∈ es, harmlessUntil (t0 + stationLifetime st) e' :=
+      fun e' he' => hall e' (List.mem_cons_of_mem _ he')
+    unfold run
+    rw [List.foldl_cons]
+    apply ih (runEvt m' e) hrest
+    obtain ⟨v, hv, hle⟩ := h0
+    cases e with
+    | msg now msg =>
+      obtain ⟨v', hv', hle'⟩ := lifetime_never_shortened now m' msg _ v hv he
+      exact ⟨v', hv', by omega⟩
+    | sweep now =>
+      have hnow : now < v := by
+        have : now < t0 + stationLifetime st := he
+        omega
+      exact ⟨v, get?_dropStale now m' _ v hv hnow, hle⟩
+
+/-- the sweep is what ends forwarding: an entry that a sweep at `now` keeps expires later than `now`
+(so a session is not forwarded for ever), and nothing else than a clear or a sweep removes a key. -/
+theorem sweep_drops_expired (now : Nat) (m : Map) (kv : Key × Nat) (h : kv ∈ dropStale now m) : now < kv.2 :=
+  dropStale_keeps_only_live now m kv h
+
 /-! ### the shutdown clear -/
 
 /-- **The clear request is one the detector acts on**: it passes the conversion, is dispatched as a
